@@ -69,7 +69,7 @@ func (s tstate) String() string {
 
 type ktask struct {
 	id       int64
-	wfd      int
+	ctx      *taskCtx
 	kind     int // 0 library, 1 harness
 	site     int64
 	state    tstate
@@ -95,7 +95,7 @@ type ktimer struct {
 	when    int64
 	period  int64
 	seq     int64
-	wfd     int
+	fd      *feederCtx
 	index   int
 	task    *ktask // sleep timers wake a task instead of a feeder
 	inbound bool   // marks an inbound-frame due event
@@ -139,7 +139,6 @@ type fsWrite struct {
 
 type kernel struct {
 	cfg   Config
-	krfd  int
 	tasks []*ktask
 	live  int
 	locks map[int64]*lockState
@@ -240,13 +239,9 @@ func Run(cfg Config, driver func()) Outcome {
 	k := &kernel{cfg: cfg, locks: map[int64]*lockState{}, byID: map[int64]*ktimer{},
 		probes: map[string]int64{}, faults: map[string]int64{}, files: map[string][]byte{},
 		th: 14695981039346656037, sh: 14695981039346656037, rng: cfg.Seed}
-	r, w := rawPipe()
-	k.krfd = r
-	kfd = w
 	// driver task
-	dr, dw := rawPipe()
-	t := &taskCtx{rfd: dr}
-	kt := &ktask{id: 1, wfd: dw, kind: 1, state: tsRunnable, held: map[int64]int{}}
+	t := newTaskCtx()
+	kt := &ktask{id: 1, ctx: t, kind: 1, state: tsRunnable, held: map[int64]int{}}
 	k.tasks = append(k.tasks, nil, kt)
 	k.live = 1
 	active = true
@@ -277,33 +272,22 @@ func Run(cfg Config, driver func()) Outcome {
 }
 
 func (k *kernel) readMsg() msg {
-	var h [hdrLen]byte
-	rawRead(k.krfd, h[:])
-	m := msg{op: getInt(h[:], 0), a: getInt(h[:], 1), b: getInt(h[:], 2), c: getInt(h[:], 3), d: getInt(h[:], 4)}
-	if pl := getInt(h[:], 5); pl > 0 {
-		m.payload = make([]byte, pl)
-		rawRead(k.krfd, m.payload)
-	}
+	semacquire(&ksema)
+	m := mbox
+	mbox = msg{}
 	return m
 }
 
 func (k *kernel) wake(t *ktask) {
-	r := &t.pend
-	n := hdrLen + len(r.payload)
-	buf := make([]byte, n)
-	putInt(buf, 0, r.r0)
-	putInt(buf, 1, r.r1)
-	putInt(buf, 2, k.now)
-	bud := int64(0)
-	if k.cfg.HintMax > 0 && t.kind == 0 {
-		bud = int64(1 + k.choose(k.cfg.HintMax))
-	}
-	putInt(buf, 3, bud)
-	putInt(buf, 4, t.id)
-	putInt(buf, 5, int64(len(r.payload)))
-	copy(buf[hdrLen:], r.payload)
+	r := t.pend
 	t.pend = reply{}
-	rawWrite(t.wfd, buf)
+	r.now = k.now
+	if k.cfg.HintMax > 0 && t.kind == 0 {
+		r.budget = int64(1 + k.choose(k.cfg.HintMax))
+	}
+	r.tid = t.id
+	t.ctx.in = r
+	semrelease(&t.ctx.sema, true, 0)
 }
 
 func (k *kernel) end(status string) {
@@ -408,7 +392,19 @@ func (k *kernel) pick(cur *ktask) *ktask {
 			}
 			return R[k.choose(len(R))]
 		}
-		// nothing can run: settle waiters first (the clock must not move under them)
+		// nothing can run: events that are already due fire first (no clock movement) ...
+		if len(k.tmrs) > 0 && k.tmrs[0].when <= k.now {
+			var ties []*ktimer
+			for _, t := range k.tmrs {
+				if t.when <= k.now {
+					ties = append(ties, t)
+				}
+			}
+			sort.Slice(ties, func(i, j int) bool { return ties[i].seq < ties[j].seq })
+			k.fire(ties[k.choose(len(ties))])
+			continue
+		}
+		// ... then settle waiters (the clock must not move under them)
 		var sw []*ktask
 		for _, t := range k.tasks {
 			if t != nil && t.state == tsSettle {
@@ -494,14 +490,9 @@ func (k *kernel) fire(t *ktimer) {
 		return
 	}
 	// feeder timer: command, then wait for the acknowledgement
-	var cmd [9]byte
-	cmd[0] = 1
-	putInt(cmd[1:], 0, k.now)
-	rawWrite(t.wfd, cmd[:])
-	m := k.readMsg()
-	if m.op != opAck {
-		fatal(fmt.Sprintf("kernel: expected ack, got op %d", m.op))
-	}
+	t.fd.cmd, t.fd.now = 1, k.now
+	semrelease(&t.fd.sema, true, 0)
+	semacquire(&ksema)
 	k.epoch++
 	k.tr("timer %d fired", t.id)
 	if t.period > 0 {
@@ -521,10 +512,8 @@ func (k *kernel) fire(t *ktimer) {
 }
 
 func (k *kernel) closeTimer(t *ktimer) {
-	var cmd [9]byte
-	cmd[0] = 2
-	rawWrite(t.wfd, cmd[:])
-	rawClose(t.wfd)
+	t.fd.cmd = 2
+	semrelease(&t.fd.sema, true, 0)
 	delete(k.byID, t.id)
 }
 
@@ -636,10 +625,9 @@ func (k *kernel) handle(t *ktask, m msg) {
 		}
 		t.pend.r0 = k.seq
 	case opGo:
-		k.nextTask(m.a, int(m.b), int(m.c))
+		k.nextTask(m.a, m.ctx, int(m.c))
 	case opExit:
 		t.state = tsDone
-		rawClose(t.wfd)
 		k.live--
 		k.tr("task %d exit", t.id)
 		if len(t.held) > 0 {
@@ -764,7 +752,7 @@ func (k *kernel) handle(t *ktask, m msg) {
 		k.sleepTask(t, m.a)
 	case opTimerNew:
 		k.seq++
-		tm := &ktimer{id: m.a, when: k.now + m.b, period: m.c, seq: k.seq, wfd: int(m.d), active: true}
+		tm := &ktimer{id: m.a, when: k.now + m.b, period: m.c, seq: k.seq, fd: m.fd, active: true}
 		if m.c < 0 { // auto-close one shot
 			tm.period = 0
 			tm.auto = true
@@ -969,9 +957,9 @@ func (k *kernel) handle(t *ktask, m msg) {
 	}
 }
 
-func (k *kernel) nextTask(site int64, wfd int, kind int) {
+func (k *kernel) nextTask(site int64, ctx *taskCtx, kind int) {
 	id := int64(len(k.tasks))
-	nt := &ktask{id: id, wfd: wfd, kind: kind, site: site, state: tsRunnable, held: map[int64]int{}}
+	nt := &ktask{id: id, ctx: ctx, kind: kind, site: site, state: tsRunnable, held: map[int64]int{}}
 	nt.lastSite = site
 	k.tasks = append(k.tasks, nt)
 	k.live++
